@@ -235,6 +235,31 @@ def run_graphs(cases, stats):
                                  out[0] if out[0] != 'VALUE' else 'VALUE_MISMATCH')
                             break
         stats['out:' + kind.split(':')[0]] += 1
+        if cyclic:
+            # the rejection holds for every request, not only the first: the same Parser is asked three times, fresh and
+            # after it has translated an acyclic workbook (a repeated request must not hand out None or the earlier text)
+            for prior in (False, True):
+                p = D.Parser().disable_safety_check()
+                if prior:
+                    p.set_excel_file_path(D.build_xlsx([('S', {'A1': 1, 'B1': '=A1+1'}), ('T', {'A1': 2})]))
+                    p.get_translation()
+                bio.seek(0)
+                p.set_excel_file_path(bio)
+                got = []
+                for attempt in range(3):
+                    stats['transitions'] += 1
+                    try:
+                        with D.time_limit(20):
+                            t = p.get_translation()
+                        got.append('NONE' if t is None else 'TEXT')
+                    except Exception as e:  # noqa
+                        got.append(D.exc_kind(e))
+                bio.seek(0)
+                stats['validated'] += 1
+                if got != ['LIB_EXC:parser'] * 3:
+                    fail('cycle_repeated_request', (['LIB_EXC:parser'] * 3, {'after_other_workbook': prior, 'got': got}),
+                         'ACCEPTED_CYCLE' if any(g in ('NONE', 'TEXT') for g in got) else got[0])
+                    break
         # entries
         for k, cell in enumerate(tmp):
             rs = reach(n, edges, k) | {k}
